@@ -484,6 +484,52 @@ type c06Parsed struct {
 	// chain: set when the policy was put in force by reloads (start-up policy and every reload with the loading
 	// steps that failed, see zz_verif_c06_reload_test.go); pol is then the policy of the last configuration that loaded
 	chain string
+	// every announcement of a registration to the detector (registerForDetector: the moment it is marked valid and
+	// becomes visible to connection handlers, under the registry lock; updateInDetector): the object and the Covert
+	// field it held at that moment
+	annMu     sync.Mutex
+	announced []c06Announce
+}
+
+type c06Announce struct {
+	kind   string
+	reg    *DecoyRegistration
+	covert string
+	valid  bool
+}
+
+func (pp *c06Parsed) announce(kind string, d *DecoyRegistration) {
+	pp.annMu.Lock()
+	pp.announced = append(pp.announced, c06Announce{kind, d, d.Covert, d.Valid})
+	pp.annMu.Unlock()
+}
+
+// checkAnnounced: at the moment a registration becomes visible (Valid set, announced) its Covert must already be
+// the literal that admission returned — a connection matched from that moment on hands it to net.Dial.  want is
+// the admitted literal where the case knows it ("" = unknown: any permitted literal IP:port passes).  Returns the
+// Covert field of the first announcement ("-" if there was none) for the correspondence line, and clears the log.
+func (pp *c06Parsed) checkAnnounced(out *vlib.Out, fail func(sig, what string), want string) string {
+	pp.annMu.Lock()
+	l := pp.announced
+	pp.announced = nil
+	pp.annMu.Unlock()
+	first := "-"
+	for i, a := range l {
+		if i == 0 {
+			first = c06Hex(a.covert)
+			if a.covert == "" {
+				first = "00"
+			}
+		}
+		out.Checked()
+		out.Count("announced:" + a.kind)
+		if _, _, problem, detail := pp.literal(a.covert); problem != "" {
+			fail("C06:visible-with-unchecked-covert", fmt.Sprintf("a registration was marked valid and announced (%s) while its Covert field held %s — a connection matched from that moment on is proxied to it", a.kind, detail))
+		} else if want != "" && a.covert != want {
+			fail("C06:visible-with-unchecked-covert", fmt.Sprintf("a registration was marked valid and announced (%s) while its Covert field held %q; the address admission returned is %q", a.kind, a.covert, want))
+		}
+	}
+	return first
 }
 
 // the networks of the local interfaces, as the harness sees them (oracle side of
@@ -546,8 +592,8 @@ func (w *c06World) parsePolicy(p c06Policy) *c06Parsed {
 		registeredDecoys:  NewRegisteredDecoys(),
 	}
 	rm.registeredDecoys.transports[pb.TransportType_Min] = min.Transport{}
-	rm.registeredDecoys.registerForDetector = func(d *DecoyRegistration) {}
-	rm.registeredDecoys.updateInDetector = func(d *DecoyRegistration) {}
+	rm.registeredDecoys.registerForDetector = func(d *DecoyRegistration) { pp.announce("register", d) }
+	rm.registeredDecoys.updateInDetector = func(d *DecoyRegistration) { pp.announce("update", d) }
 	pp.rm = rm
 	return pp
 }
@@ -807,12 +853,14 @@ func (w *c06World) runC06(out *vlib.Out, pp *c06Parsed, provided string, gen int
 	if first != nil {
 		firstCovert = first.Covert
 	}
+	annF := pp.checkAnnounced(out, fail, got)
 	// ---- the same session registers again with another covert string
 	dupF := "-"
 	if dup != "\x00" {
 		dupF = "D"
 		w.dns.beginCall()
 		pp.rm.ingestRegistration(w.newReg(dup, sec))
+		pp.checkAnnounced(out, fail, "")
 	}
 	stored := pp.rm.registeredDecoys.RegistrationExists(reg)
 	valid := stored != nil && stored.Valid
@@ -859,7 +907,7 @@ func (w *c06World) runC06(out *vlib.Out, pp *c06Parsed, provided string, gen int
 		}
 	}
 	line := "covert|" + vlib.B(conf.enableCovertAllowlist) + "|" + strings.Join(a.fields, "|") + "|" + dupF + "|" + dialIn + "|" + vlib.B(a.dnsPerRes > 0)
-	out.Case(line, c06Hex(got)+"|"+vlib.B(lookup)+"|"+lookups+"|"+storedF+"|"+vlib.B(valid)+"|"+dialOut, got != "")
+	out.Case(line, c06Hex(got)+"|"+vlib.B(lookup)+"|"+lookups+"|"+storedF+"|"+vlib.B(valid)+"|"+dialOut+"|"+annF, got != "")
 
 	// ---- property oracle, evaluated on the OUTPUT string with the real library
 	out.Checked()
@@ -1171,6 +1219,7 @@ func (w *c06World) runSched(out *vlib.Out, pol c06Policy, coverts []string, sche
 	}
 	out.Case(line, storedF+"|"+vlib.B(valid)+"|"+ptr, valid)
 	out.Count("sched:runs")
+	pp.checkAnnounced(out, fail, "")
 	// the dial of what is valid at the end, after the names were re-pointed
 	if valid && w.mayDial(stored.Covert) {
 		dests, dialDNS := w.dial(stored)
